@@ -1637,7 +1637,17 @@ fn oracle_tick(t: &mut Toks, _tier: Tier) -> Result<OracleOut, String> {
                 }
                 Err(e) => {
                     replay_err = Some(err_class(&e));
-                    o.fails.push((format!("C04.tick-replay-error:{}", err_class(&e)), format!("tick patch {} fails to apply to the pre-state", clip(&ops_str(patch.ops())))));
+                    // Specific shape of known finding C04-K1: the patch deletes a node that the POST-state still
+                    // has an edge on (an UpsertEdge of the same tick re-attached it after the DeleteNode ran).
+                    let dangling = patch.ops().iter().any(|op| match op {
+                        WarpOp::DeleteNode { node } => hook::stores(&post).iter().any(|(w, g)| {
+                            *w == node.warp_id
+                                && g.iter_edges().flat_map(|(_, v)| v.iter()).any(|r| r.from == node.local_id || r.to == node.local_id)
+                        }),
+                        _ => false,
+                    });
+                    let shape = if dangling { ".deleted-node-keeps-edge-in-post-state" } else { "" };
+                    o.fails.push((format!("C04.tick-replay-error:{}{shape}", err_class(&e)), format!("tick patch {} fails to apply to the pre-state", clip(&ops_str(patch.ops())))));
                 }
             }
             // the patch is exactly the diff, is canonical, and carries a valid digest bound into the snapshot
@@ -1663,7 +1673,7 @@ fn oracle_tick(t: &mut Toks, _tier: Tier) -> Result<OracleOut, String> {
                 }
                 Err(e) => match replay_err {
                     // same root cause as the failed replay above: one finding, two observables
-                    Some(cl) => o.fails.push((format!("C04.tick-replay-error:{cl}.jump_to_tick"), format!("Engine::jump_to_tick(0) fails right after the commit that recorded tick 0 ({e})"))),
+                    Some(cl) => o.fails.push((format!("C04.tick-replay-error:{cl}.jump_to_tick-after-replay-error"), format!("Engine::jump_to_tick(0) fails right after the commit that recorded tick 0 ({e})"))),
                     None => o.fails.push((format!("C04.jump-replay-error:{e}"), "jump_to_tick(0) fails although the recorded patch replays on the pre-state".into())),
                 },
             }
